@@ -229,6 +229,11 @@ var acceptChan = []accept{
 // chanRules: blocking channel operations in handler code (C06.3) and
 // send/close conflicts and lost wake-ups per channel class (C06.4).
 func chanRules(c *cx, id string, scope []*eng.Fn, why map[*eng.Fn]string) {
+	chanRulesFiltered(c, id, scope, why, "")
+}
+
+// chanRulesFiltered restricts the per-class rules to classes with the prefix.
+func chanRulesFiltered(c *cx, id string, scope []*eng.Fn, why map[*eng.Fn]string, prefix string) {
 	inScope := map[*eng.Fn]bool{}
 	for _, f := range scope {
 		inScope[f] = true
@@ -248,6 +253,9 @@ func chanRules(c *cx, id string, scope []*eng.Fn, why map[*eng.Fn]string) {
 	}
 	var classes []string
 	for k := range byClass {
+		if prefix != "" && !strings.HasPrefix(k, prefix) {
+			continue
+		}
 		classes = append(classes, k)
 	}
 	sort.Strings(classes)
@@ -300,7 +308,9 @@ func chanRules(c *cx, id string, scope []*eng.Fn, why map[*eng.Fn]string) {
 			c.r.Check(id+"a", op.fn, "blocking "+op.kind+" on "+cls, "every channel operation on the serve path has an escape arm or is non-blocking ("+wy+")", op.node.Pos(), ok, "unguarded blocking "+op.kind+" in handler code: the serve loop stalls until another goroutine is ready; reached via "+why[op.fn])
 		}
 	}
-	c.r.Floor(id+"a", "channel operations on the serve path", nBlock, 5)
+	if prefix == "" {
+		c.r.Floor(id+"a", "channel operations on the serve path", nBlock, 5)
+	}
 	// ---- per class: send vs close, capacity vs non-blocking notify -----------------
 	for _, cls := range classes {
 		ops := byClass[cls]
